@@ -50,11 +50,11 @@ inline Plan Gen(uint64_t seed)
          const std::string pp = wl.oneIn(8) ? "*" : par;
          std::string s = "insord " + Esc(pp);
          const int n = wl.oneIn(4) ? 2 : 1;
-         for (int i=0; i<n; i++) {std::string before = "-"; const uint32_t b = wl.below(10); if (b < 3) before = EK(wl); else if (b < 6) before = "I" + I(wl.below(6)); s += " " + before + " " + U(g.val++);}
+         for (int i=0; i<n; i++) {std::string before = "-"; const uint32_t b = wl.below(10); if (b < 3) before = EK(wl); else if (b < 6) before = "I" + I(wl.below(6)); else if ((b == 9)&&(wl.oneIn(3))) before = "!Rmv"; s += " " + before + " " + U(g.val++);}   // ("!Rmv" as the position: create the child but keep it out of the index)
          p.push_back(sendPfx + s);
          if ((pp != "*")&&(wl.oneIn(5))) p.push_back(sendPfx + "setdata s " + par + "=" + U(g.val++) + ":-");
       }
-      else if (k < 40) p.push_back(sendPfx + "setdata i " + par + "/" + EK(wl) + "=" + U(g.val++) + ":" + I(wl.below(4)));   // add-to-index with an explicit name
+      else if (k < 40) p.push_back(sendPfx + "setdata i " + par + "/" + (wl.oneIn(4) ? ("I" + I(wl.below(8))) : EK(wl)) + "=" + U(g.val++) + ":" + I(wl.below(4)));   // add-to-index with an explicit name
       else if (k < 46) p.push_back(sendPfx + "setdata - " + par + "/" + (wl.oneIn(2) ? EK(wl) : ("I" + I(wl.below(6)))) + "=" + U(g.val++) + ":1");   // plain set of an (un)indexed child
       else if (k < 58)
       {
